@@ -1,4 +1,7 @@
 fn main() {
+    // Verification hooks are compiled only with `--cfg jgilchrist_tcheran_verif`
+    println!("cargo::rustc-check-cfg=cfg(jgilchrist_tcheran_verif)");
+
     build_fathom();
 }
 
